@@ -499,7 +499,10 @@ where
     ) where
         R_: Registry,
     {
-        if
+        // The removed component is kept until the row has been removed from the remaining columns
+        // as well: if its `Drop` implementation panics, no column is left a row longer than the
+        // others.
+        let removed = if
         // SAFETY: `identifier_iter` is guaranteed by the safety contract of this method to
         // return a value for every component within the registry.
         unsafe { identifier_iter.next().unwrap_unchecked() } {
@@ -519,14 +522,18 @@ where
                     )
                 },
             );
-            v.swap_remove(index);
+            let removed = v.swap_remove(index);
 
             components =
                 // SAFETY: `components` is guaranteed to have the same number of values as there
                 // set bits in `identifier_iter`. Since a bit must have been set to enter this
                 // block, there must be at least one component column.
                 unsafe { components.get_unchecked(1..) };
-        }
+
+            Some(removed)
+        } else {
+            None
+        };
         // SAFETY: At this point, one bit of `identifier_iter` has been consumed. There are two
         // possibilities here: either the bit was set or it was not.
         //
@@ -545,6 +552,8 @@ where
         // than `(C, R)`, and since `identifier_iter` has had one bit consumed, it still has the
         // same number of bits remaining as `R` has components remaining.
         unsafe { R::remove_component_row(index, components, length, identifier_iter) };
+
+        drop(removed);
     }
 
     unsafe fn pop_component_row<R_>(
